@@ -42,7 +42,7 @@ func genC17(tier string, seed int64) []Case {
 	}
 	nb, per := 8, 300
 	if tier == "thorough" {
-		nb, per = 32, 1500
+		nb, per = 96, 1500
 	}
 	add(c17Desc{Kind: "history", N: 0, Salt: "enumerated"})
 	for i := 0; i < nb; i++ {
@@ -53,7 +53,7 @@ func genC17(tier string, seed int64) []Case {
 	add(c17Desc{Kind: "wakeup", N: 0, Salt: "enumerated"})
 	nr := 6
 	if tier == "thorough" {
-		nr = 40
+		nr = 120
 	}
 	for i := 0; i < nr; i++ {
 		add(c17Desc{Kind: "rate", N: 2, Salt: fmt.Sprintf("%d-%d", seed, i)})
